@@ -743,7 +743,7 @@ class file_archive(archive):
         else:
             import tempfile
             file = os.path.basename(filename)
-            root = os.path.realpath(filename).rstrip(file)[:-1]
+            root = os.path.dirname(os.path.abspath(filename))
             curdir = os.path.realpath(os.curdir)
             if file.endswith(('.py','.pyc','.pyo','.pyd')):
                 file = file.rsplit('.',1)[0]
